@@ -2,7 +2,7 @@
    Statements only; proofs in AuthProofs.v, AuthMutProofs.v. *)
 From Coq Require Import List NArith Bool Arith.
 Import ListNotations.
-Require Import V.Regex V.Parse V.ParseProofs V.Auth V.AuthProofs V.Splice V.Setters V.AuthMut V.AuthMutProofs.
+Require Import V.Regex V.Parse V.ParseProofs V.Auth V.AuthProofs V.Splice V.Setters V.AuthMut V.AuthMutProofs V.AuthValues V.Abnf V.BridgePaths V.C03Bridge.
 Local Open Scope nat_scope.
 
 (* The all-at-once decomposition of [userinfo "@"] host [":" port] returns exactly the three ranges of
@@ -19,6 +19,28 @@ Theorem C03_find_host : forall a before, wf_aparts a ->
   (length before + length (ui_part a), length before + length (ui_part a) + length (ap_host a)).
 Proof. exact find_host_value. Qed.
 Print Assumptions C03_find_host.
+
+(* user_info() and port(): the two remaining individual scanners, at any offset *)
+Theorem C03_find_user_info : forall a before, wf_aparts_s a ->
+  find_user_info (before ++ acompose a) (length before) =
+  option_map (fun u => (length before, length before + length u)) (ap_userinfo a).
+Proof. exact find_user_info_value. Qed.
+Print Assumptions C03_find_user_info.
+Theorem C03_find_port : forall a before, wf_aparts a ->
+  find_port (before ++ acompose a) (length before) =
+  option_map (fun p => (length before + length (acompose a) - length p, length before + length (acompose a))) (ap_port a).
+Proof. exact find_port_value. Qed.
+Print Assumptions C03_find_port.
+
+(* the whole chain, for every string of the RFC 3986 / RFC 3987 authority language: it is
+   [userinfo "@"] host [":" port] with each part in its own language, the one-pass decomposition and the
+   three individual scanners return exactly the ranges of those parts (absent vs empty distinguished) *)
+Theorem C03_uri_authority : forall s, L (iauthority U) s -> exists a, valid_aparts_fam U a /\ adecomposition_ok s a.
+Proof. exact uri_authority_decomposition. Qed.
+Print Assumptions C03_uri_authority.
+Theorem C03_iri_authority : forall s, L (iauthority I) s -> exists a, valid_aparts_fam I a /\ adecomposition_ok s a.
+Proof. exact iri_authority_decomposition. Qed.
+Print Assumptions C03_iri_authority.
 
 (* non-vacuity: user info with ':', IPv6 literal, port *)
 Example C03_example :
